@@ -162,3 +162,16 @@ def apply_cols(cols, v):
         v >>= 1
         j += 1
     return r
+
+
+def polyinv(a, P):
+    """inverse of a modulo P (extended Euclid over GF(2)); None if not invertible"""
+    r0, r1 = P, polymod(a, P)
+    t0, t1 = 0, 1
+    while r1:
+        q = polydiv(r0, r1)
+        r0, r1 = r1, r0 ^ polymul(q, r1)
+        t0, t1 = t1, t0 ^ polymul(q, t1)
+    if r0 != 1:
+        return None
+    return polymod(t0, P)
